@@ -808,6 +808,13 @@ impl Runtime {
         }
         if select == 0 || select > len {
             self.pc += len as usize;
+            // ON...GOSUB pushed its return address (the end of the jump
+            // table) before selecting; no branch means no pending RETURN.
+            if let Some(Val::Return(addr)) = self.stack.last() {
+                if *addr == self.pc {
+                    self.stack.pop()?;
+                }
+            }
         } else {
             self.pc += select as usize - 1;
         }
